@@ -157,6 +157,29 @@ def gen_scenario(rng: random.Random, feat: dict | None = None) -> dict:
         "disorder": rng.choice([0.0, 0.0, 0.2]) if feat.get("disorder", True) else 0.0,
         "ops": [],
     }
+    if feat.get("hold"):
+        g = instance_graph(scn)["inst"]
+        ids = sorted(g)
+        nops = rng.randint(1, 4)
+        for _ in range(nops):
+            tick = rng.randint(0, 8)
+            r = rng.random()
+            if r < 0.45 and ids:
+                sel = rng.sample(ids, rng.randint(1, min(3, len(ids))))
+                scn["ops"].append({"tick": tick, "cmd": "hold", "args": {"tasks": [f"{p}/{t}" for p, t in sel]}})
+                if rng.random() < 0.8:
+                    rel = rng.sample(sel, rng.randint(1, len(sel)))
+                    scn["ops"].append({"tick": tick + rng.randint(1, 6), "cmd": "release",
+                                       "args": {"tasks": [f"{p}/{t}" for p, t in rel]}})
+            elif r < 0.7:
+                hp = rng.randint(icp, fcp)
+                scn["ops"].append({"tick": tick, "cmd": "set_hold_point", "args": {"point": str(hp)}})
+                if rng.random() < 0.8:
+                    scn["ops"].append({"tick": tick + rng.randint(1, 6), "cmd": "release_hold_point", "args": {}})
+            elif ids:
+                sel = rng.sample(ids, 1)
+                scn["ops"].append({"tick": tick, "cmd": "release", "args": {"tasks": [f"{p}/{t}" for p, t in sel]}})
+        scn["ops"].sort(key=lambda o: o["tick"])
     if feat.get("queues") and rng.random() < 0.6:
         ms = rng.sample(tasks, rng.randint(1, len(tasks)))
         scn["queues"]["q1"] = {"limit": rng.choice([1, 1, 2]), "members": ms}
